@@ -2021,10 +2021,14 @@ def r189_scalar(ctx, repo):
     if not br:
         raise AnalysisError("get_volume: single-event branch not found")
     test = br[0].test
+    if not names_in(test) & params:
+        # named condition: `single = np.isscalar(pos_x)` ... `if single:`
+        test = ast.parse(expand_locals(fn, test, depth=4), mode="eval").body
     tparams = sorted(names_in(test) & params)
     if not tparams:
-        raise AnalysisError("get_volume: the single-event test reads no "
-                            "parameter")
+        ctx.note("R18.9: the single-event test of get_volume does not read a "
+                 "parameter directly; scalar-type table not evaluated")
+        return
     it = L.Interp(repo)
     np_ = L.NPModel()
     base_isscalar = np_.isscalar
@@ -2056,12 +2060,17 @@ def r189_scalar(ctx, repo):
              ("1-d array", L.Arr([1.5, 2.5]), False),
              ("list", [1.5, 2.5], False)]
     bad = None
-    for name, val, want in cases:
-        loc_ = {p_: val for p_ in params}
-        res = L.run(lambda: bool(it.truth(it.eval(test, L.Frame(env, loc_)),
-                                          test)))
-        if res != ("ok", want) and bad is None:
-            bad = (name, res, want)
+    try:
+        for name, val, want in cases:
+            loc_ = {p_: val for p_ in params}
+            res = L.run(lambda: bool(it.truth(
+                it.eval(test, L.Frame(env, loc_)), test)))
+            if res != ("ok", want) and bad is None:
+                bad = (name, res, want)
+    except AnalysisError as e:
+        ctx.note(f"R18.9: the single-event test of get_volume could not be "
+                 f"evaluated on the scalar table ({e})")
+        return
     ctx.ob("R18.9", bad is None,
            f"`{short(test, 50)}` takes the single-event branch for every "
            f"scalar type ({len(cases)} kinds of input)" if bad is None else
